@@ -602,6 +602,10 @@ def successors(kind, n, chunk, cfg, hidden):
     return out
 
 
+MAXSTATES = 6000      # more than twice the largest space of the unchanged tree (2721 at N = 5)
+KEEP_WHEN_CAPPED = 600   # states (shortest witnesses first) that are still judged when the cap was hit
+
+
 def discover(pool, kind, n, cfg, hidden, maxstates=None):
     """BFS.  Returns list of (key, state, witness) in discovery order (deterministic)."""
     ops = [o for o in ops_for(n, cfg) if o[0] != "new"]
@@ -626,8 +630,13 @@ def discover(pool, kind, n, cfg, hidden, maxstates=None):
                     index[k] = len(states)
                     states.append((k, _tup(st), states[i][2] + (ops[oi],)))
                     nxt.append(index[k])
-                    if len(states) > (maxstates or 400000):
-                        raise core.HarnessError("state space of %s N=%d exceeds %d states" % (kind, n, maxstates or 400000))
+                    if len(states) >= (maxstates or MAXSTATES):
+                        # A change to the library that adds history-dependent private state makes the fingerprinted space
+                        # explode (the unchanged tree has 19 / 195 / 2721 states at N = 3 / 4 / 5).  The search stops here:
+                        # what was found is still judged (violations are reported), but the run can no longer be
+                        # called exhaustive - without violations the runner turns this into a harness error.
+                        core.CAPPED.append("%s N=%d: discovery stopped at %d states" % (kind, n, len(states)))
+                        return states[:KEEP_WHEN_CAPPED]
         frontier = nxt
     return states
 
